@@ -116,6 +116,63 @@ theorem threshold_last_wins (cfg c1 c2 : Config) (i j : Int)
     · simp [hi, hj, Config.setNat] at h1 h2 ⊢
       subst h1; exact h2
 
+/-! ## repeated `build()`: the list stored by the first call is a fixed point -/
+
+/-- contract of the external lower-casing used below: it is idempotent (true of `str::to_lowercase`;
+kernel-checkable on the extracted single-character table, assumed here for whole strings) -/
+def LowerIdem (env : Env) : Prop := ∀ w, env.lowerOf (env.lowerOf w) = env.lowerOf w
+
+theorem ciLiteralMatch_refl (s : Str) : ciLiteralMatch s s = true := by simp [ciLiteralMatch]
+
+theorem lowerOne_idem (env : Env) (h : LowerIdem env) (w : Str) : lowerOne env (lowerOne env w) = lowerOne env w := by
+  unfold lowerOne
+  by_cases hc : ((env.lowerOf w).length = w.length && ciLiteralMatch (env.lowerOf w) w) = true
+  · simp only [hc, ite_true, h w, ciLiteralMatch_refl, Bool.and_true, decide_true]
+  · simp only [hc, ite_false]
+    simp [hc]
+
+theorem lowerCases_idem (env : Env) (h : LowerIdem env) (ws : List Str) :
+    lowerCases env (lowerCases env ws) = lowerCases env ws := by
+  simp [lowerCases, List.map_map, Function.comp, lowerOne_idem env h]
+
+theorem lowerCases_sort_commute_mem (env : Env) (L : List Str) (w : Str) :
+    w ∈ lowerCases env (sortCases L) ↔ w ∈ lowerCases env L := by
+  simp only [lowerCases, List.mem_map]
+  constructor
+  · rintro ⟨a, ha, rfl⟩
+    exact ⟨a, (sortCases_mem _ a).mp ha, rfl⟩
+  · rintro ⟨a, ha, rfl⟩
+    exact ⟨a, (sortCases_mem _ a).mpr ha, rfl⟩
+
+/-- **C10 (repeated build)** the list a first `build()` stores is left unchanged by every further
+`build()`: S1 of the second call reproduces it, so all later stages see the same input -/
+theorem stored_list_fixed (cfg : Config) (env : Env) (h : LowerIdem env) (ws : List Str) :
+    let stored := sortCases (if cfg.ci = true then lowerCases env ws else ws)
+    sortCases (if cfg.ci = true then lowerCases env stored else stored) = stored := by
+  simp only []
+  split
+  · apply sortCases_set
+    intro w
+    rw [lowerCases_sort_commute_mem, lowerCases_idem env h]
+  · exact sortCases_idem ws
+
+/-- **C10 (repeated build, whole pipeline)** a second `build()` on the same builder returns the same
+stages and the same expression as the first one, for every configuration -/
+theorem second_build_same (cfg : Config) (env : Env) (h : LowerIdem env) (ws : List Str) (st : Stages)
+    (h1 : regExpFrom cfg env ws = .ok st) : regExpFrom cfg env st.sorted = .ok st := by
+  have hs : st.sorted = sortCases (if cfg.ci = true then lowerCases env ws else ws) := by
+    unfold regExpFrom at h1
+    simp only [] at h1
+    split at h1
+    · simp at h1
+    · repeat' (split at h1)
+      all_goals (first | (simp at h1; done) | (simp only [Except.ok.injEq] at h1; rw [← h1]; simp [*]))
+  have key := stored_list_fixed cfg env h ws
+  simp only [] at key
+  rw [← h1, hs]
+  unfold regExpFrom
+  simp only [key]
+
 /-- `build()` does not touch the settings -/
 theorem build_keeps_config (env : Env) (b b' : Builder) (s : Str) (h : b.build env = .ok (b', s)) :
     b'.config = b.config := by
